@@ -6,7 +6,7 @@ Model   : Model/Compiler.lean (`serveCompiled`, `serveVersioned`, `serveWith`: c
           bloom filter, specificity-sorted dynamic list with first-segment index, `matchAndExtract`,
           per-tree tables, version cache) on top of Model/Radix.lean (the tree engine)
 Oracle  : the tree engine itself (`serve`), both engines built from the same registration script
-Classes : Spec/CompiledClass.lean (`dOrder1` K11a, `dMulti1` K11d, `dSpace` K11f, `normal` K11e) and the
+Classes : Spec/CompiledClass.lean (`dOrder1` K11a, `normal` K11e; K11d and K11f were repaired) and the
           tree-side classes of C01 (`dShadow1`, `dNames1`, `dCfall1`)
 
 `hash` (FNV-1a in the code) is an arbitrary function; the theorems state as a hypothesis that it
@@ -44,50 +44,21 @@ example : (addAll (Bloom.new 1 8) [12345, 99]).test 99 = true := by decide
 
 /-! ### from the driver's Boolean side conditions to the hypotheses of the lemmas -/
 
-theorem lemma_isWhite (c : Char) : isWhite c = isSpace c := rfl
-
-theorem lemma_trim (text : Bytes) (hh : text.head? = some '/')
-    (hl : (match text.getLast? with | some c => isWhite c | none => false) = false) :
-    trimSpace text = text := by
-  unfold trimSpace
-  cases text with
-  | nil => simp at hh
-  | cons c rest =>
-    simp only [List.head?_cons, Option.some.injEq] at hh
-    subst hh
-    have h1 : ('/' :: rest).dropWhile isSpace = '/' :: rest := by
-      simp [List.dropWhile_cons, isSpace]
-    rw [h1]
-    have hne : ('/' :: rest) ≠ [] := by simp
-    have h2 : ('/' :: rest).reverse.dropWhile isSpace = ('/' :: rest).reverse := by
-      rw [List.getLast?_eq_some_getLast hne] at hl
-      simp only [lemma_isWhite] at hl
-      have hrev : ('/' :: rest).reverse = ('/' :: rest).getLast hne :: ('/' :: rest).dropLast.reverse := by
-        conv => lhs; rw [← List.dropLast_concat_getLast hne]
-        simp
-      rw [hrev, List.dropWhile_cons, hl]
-      rfl
-    rw [h2, List.reverse_reverse]
-
 theorem lemma_good (script : List Reg) (R : List Route) (hR : specRoutes script = some R) (hN : normal R = true)
-    (hSp : dSpace R = false) (hstd : ∀ g ∈ script, g.method ∈ stdMethods) : StatR R ∧ GoodR R := by
+    (hstd : ∀ g ∈ script, g.method ∈ stdMethods) : StatR R ∧ GoodR R := by
   have hNR := lemma_normalR R hN
-  have hall : ∀ r ∈ R, NormalPat r.text r.pat ∧ trimSpace r.text = r.text ∧ r.method ∈ stdMethods ∧
+  have hall : ∀ r ∈ R, NormalPat r.text r.pat ∧ r.method ∈ stdMethods ∧
       parsePattern r.text = some r.pat := by
     intro r hr
     have hn := (hNR r hr).1
-    refine ⟨hn, ?_, ?_, ?_⟩
-    · apply lemma_trim
-      · rw [hn.text]; rfl
-      · have := Bool.eq_false_iff.mpr ((List.any_eq_false.mp hSp) r hr)
-        exact this
+    refine ⟨hn, ?_, ?_⟩
     · obtain ⟨g, hg, hgm⟩ := lemma_methods script 0 R hR r hr
       rw [hgm]; exact hstd g hg
     · simp only [normal, List.all_eq_true] at hN
       have := hN r hr
       simp only [normalRoute, Bool.and_eq_true, decide_eq_true_eq] at this
       exact this.1
-  exact ⟨hall, fun r hr => ⟨(hall r hr).1, (hall r hr).2.1⟩⟩
+  exact ⟨hall, fun r hr => (hall r hr).1⟩
 
 /-- the texts the hash has to separate for one request: the request's own keys and every registered
 (method, pattern) and pattern -/
@@ -130,15 +101,14 @@ same parameter bindings, same `Allow`. The order of the compiled candidate list,
 and the ten-route thresholds do not enter. -/
 theorem compiled_eq_tree_partial (hash : Bytes → Nat) (sat : Nat → Bytes → Bool) (o : Opts) (noRoute : Bool)
     (script : List Reg) (R : List Route) (hR : specRoutes script = some R) (hN : normal R = true)
-    (hSp : dSpace R = false) (hstd : ∀ g ∈ script, g.method ∈ stdMethods)
+    (hstd : ∀ g ∈ script, g.method ∈ stdMethods)
     (req : Req) (hp : req.path.head? = some '/') (hmeth : '/' ∉ req.method)
     (hinj : InjOn hash (hashKeys R req))
     (hS : dShadow1 R req.method (cutAny req.path) = false) (hNm : dNames1 R req.method (cutAny req.path) = false)
     (hC : dCfall1 sat R req.method (cutAny req.path) = false)
-    (hO : dOrder1 sat R req.method (cutAny req.path) = false)
-    (hM : dMulti1 R req.method (cutAny req.path) = false) :
+    (hO : dOrder1 sat R req.method (cutAny req.path) = false) :
     serveCompiled hash sat o script noRoute req = serve sat (build noRoute script) req := by
-  obtain ⟨hStat, hGood⟩ := lemma_good script R hR hN hSp hstd
+  obtain ⟨hStat, hGood⟩ := lemma_good script R hR hN hstd
   unfold serveCompiled
   simp only
   cases h1 : (rcBuild hash script).lookupStatic hash req.method req.path with
@@ -149,7 +119,7 @@ theorem compiled_eq_tree_partial (hash : Bytes → Nat) (sat : Nat → Bytes →
     cases h2 : (rcBuild hash script).matchDynamic sat req.method req.path with
     | some res =>
       obtain ⟨cr, e⟩ := res
-      exact stage2_eq hash sat noRoute script R hR hN hGood hstd req hp hS hNm hC hO hM cr e h2
+      exact stage2_eq hash sat noRoute script R hR hN hGood hstd req hp hS hNm hC hO cr e h2
     | none =>
       simp only
       unfold serve
@@ -158,7 +128,7 @@ theorem compiled_eq_tree_partial (hash : Bytes → Nat) (sat : Nat → Bytes →
         by_cases hf : R.filter (·.method = req.method) = []
         · simp [hf]
         · simp only [hf, if_false]
-          exact stage3_eq hash sat R (fun r hr => (hGood r hr).1) req.method o.size o.k req (build noRoute script)
+          exact stage3_eq hash sat R (fun r hr => hGood r hr) req.method o.size o.k req (build noRoute script)
             (lemma_inj2 hash R req hinj)
       · have : treeOf (build noRoute script) req.method = none := by simp [treeOf, hm]
         rw [this]
@@ -180,13 +150,12 @@ theorem versioned_eq (hash : Bytes → Nat) (sat : Nat → Bytes → Bool) (o o'
 in the same placement (main tree or version tree). -/
 theorem C11_partial (hash : Bytes → Nat) (sat : Nat → Bytes → Bool) (o : Opts) (noRoute : Bool)
     (script : List Reg) (R : List Route) (hR : specRoutes script = some R) (hN : normal R = true)
-    (hSp : dSpace R = false) (hstd : ∀ g ∈ script, g.method ∈ stdMethods)
+    (hstd : ∀ g ∈ script, g.method ∈ stdMethods)
     (req : Req) (hp : req.path.head? = some '/') (hmeth : '/' ∉ req.method)
     (hinj : InjOn hash (hashKeys R req))
     (hS : dShadow1 R req.method (cutAny req.path) = false) (hNm : dNames1 R req.method (cutAny req.path) = false)
     (hC : dCfall1 sat R req.method (cutAny req.path) = false)
-    (hO : dOrder1 sat R req.method (cutAny req.path) = false)
-    (hM : dMulti1 R req.method (cutAny req.path) = false) :
+    (hO : dOrder1 sat R req.method (cutAny req.path) = false) :
     serveWith hash sat o script noRoute req =
       serveWith hash sat { compiled := false, bloomSize := 0, bloomK := 0, versioned := o.versioned } script noRoute req := by
   unfold serveWith
@@ -196,7 +165,7 @@ theorem C11_partial (hash : Bytes → Nat) (sat : Nat → Bytes → Bool) (o : O
   · simp only [hv, Bool.false_eq_true, if_false]
     by_cases hc : o.compiled = true
     · simp only [hc, if_true]
-      exact compiled_eq_tree_partial hash sat o noRoute script R hR hN hSp hstd req hp hmeth hinj hS hNm hC hO hM
+      exact compiled_eq_tree_partial hash sat o noRoute script R hR hN hstd req hp hmeth hinj hS hNm hC hO
     · simp [hc]
 
 /-- **Every difference between the two engines is classified**: where the driver prints `-` the
@@ -211,32 +180,25 @@ theorem classify11_dash (hash : Bytes → Nat) (sat : Nat → Bytes → Bool) (o
       serveWith hash sat { compiled := false, bloomSize := 0, bloomK := 0, versioned := o.versioned } script noRoute req := by
   unfold classify11 at hcls
   simp only at hcls
-  cases hSp : dSpace R with
-  | true => simp [hSp] at hcls
-  | false =>
-    cases hN : normal R with
-    | false => simp [hSp, hN] at hcls
-    | true =>
-      cases hM : dMulti1 R req.method (cutAny req.path) with
-      | true => simp [hSp, hN, hM] at hcls
+  cases hN : normal R with
+  | false => simp [hN] at hcls
+  | true =>
+    cases hOw : dOverwrite1 R req.method (cutAny req.path) with
+    | true => simp [hN, hOw] at hcls
+    | false =>
+      cases hNm : dNames1 R req.method (cutAny req.path) with
+      | true => simp [hN, hOw, hNm] at hcls
       | false =>
-        cases hOw : dOverwrite1 R req.method (cutAny req.path) with
-        | true => simp [hSp, hN, hM, hOw] at hcls
+        cases hS : dShadow1 R req.method (cutAny req.path) with
+        | true => simp [hN, hOw, hNm, hS] at hcls
         | false =>
-          cases hNm : dNames1 R req.method (cutAny req.path) with
-          | true => simp [hSp, hN, hM, hOw, hNm] at hcls
+          cases hC : dCfall1 sat R req.method (cutAny req.path) with
+          | true => simp [hN, hOw, hNm, hS, hC] at hcls
           | false =>
-            cases hS : dShadow1 R req.method (cutAny req.path) with
-            | true => simp [hSp, hN, hM, hOw, hNm, hS] at hcls
+            cases hO : dOrder1 sat R req.method (cutAny req.path) with
+            | true => simp [hN, hOw, hNm, hS, hC, hO] at hcls
             | false =>
-              cases hC : dCfall1 sat R req.method (cutAny req.path) with
-              | true => simp [hSp, hN, hM, hOw, hNm, hS, hC] at hcls
-              | false =>
-                cases hO : dOrder1 sat R req.method (cutAny req.path) with
-                | true => simp [hSp, hN, hM, hOw, hNm, hS, hC, hO] at hcls
-                | false =>
-                  exact C11_partial hash sat o noRoute script R hR hN hSp hstd req hp hmeth hinj hS hNm hC hO hM
-
+              exact C11_partial hash sat o noRoute script R hR hN hstd req hp hmeth hinj hS hNm hC hO
 
 /-! ### witnesses of the recorded findings (replayed on the implementation: corpus/C11) and of the
 repaired ones -/
@@ -277,16 +239,16 @@ theorem K11c_witness :
     (matchAndExtract anySat k11cRoute (B "/1/2/3/4/5/6/7/8/9") []).2.over = [(B "p9", B "9")] :=
   ⟨by decide, by decide, by decide, by decide⟩
 
-/-- K11d — two constraints on one parameter: constraint 0 accepts everything, constraint 1 nothing -/
+/-- K11d (repaired in 6caf0d2) — as shipped only the first constraint of a parameter was compiled:
+constraint 0 accepts everything, constraint 1 nothing -/
 def k11dSat : Nat → Bytes → Bool := fun cid _ => cid == 0
-def k11dScript : List Reg := [reg "GET" "/u/:id" [(B "id", 0), (B "id", 1)]]
-def k11dReq : Req := ⟨G, B "/u/07", [B "id"]⟩
+def k11dCons : List (Bytes × Nat) := [(B "id", 0), (B "id", 1)]
 
-theorem K11d_witness : ∃ R, specRoutes k11dScript = some R ∧
-    (serveCompiled polyHash k11dSat onOpts k11dScript false k11dReq).ran = some 0 ∧
-    (serve k11dSat (build false k11dScript) k11dReq).status = 404 ∧
-    classify11 k11dSat R k11dReq (cutAny k11dReq.path) = "multicons" :=
-  ⟨_, rfl, by decide, by decide, by decide⟩
+theorem K11d_asIs_witness :
+    (matchAndExtract k11dSat (compileRouteGen false true G (B "/u/:id") k11dCons 0) (B "/u/07") []).1 = true ∧
+    (matchAndExtract k11dSat (compileRoute G (B "/u/:id") k11dCons 0) (B "/u/07") []).1 = false ∧
+    (serve k11dSat (build false [reg "GET" "/u/:id" k11dCons]) ⟨G, B "/u/07", []⟩).status = 404 :=
+  ⟨by decide, by decide, by decide⟩
 
 /-- K11e — a constraint on a name the pattern does not declare -/
 def k11eScript : List Reg := [reg "GET" "/u/:id" [(B "uid", 0)]]
@@ -298,15 +260,14 @@ theorem K11e_witness : ∃ R, specRoutes k11eScript = some R ∧
     classify11 anySat R k11eReq (cutAny k11eReq.path) = "undeclared" :=
   ⟨_, rfl, by decide, by decide, by decide⟩
 
-/-- K11f — a pattern text that ends in white space -/
-def k11fScript : List Reg := [reg "GET" "/a/:x "]
-def k11fReq : Req := ⟨G, B "/a/1", [B "x", B "x "]⟩
-
-theorem K11f_witness : ∃ R, specRoutes k11fScript = some R ∧
-    (serveCompiled polyHash anySat onOpts k11fScript false k11fReq).lookups = [(B "x", B "1"), (B "x ", B "")] ∧
-    (serve anySat (build false k11fScript) k11fReq).lookups = [(B "x", B ""), (B "x ", B "1")] ∧
-    classify11 anySat R k11fReq (cutAny k11fReq.path) = "space" :=
-  ⟨_, rfl, by decide, by decide, by decide⟩
+/-- K11f (repaired in 59d7821) — as shipped `CompileRoute` trimmed white space from the pattern, the
+tree registers it as written -/
+theorem K11f_asIs_witness :
+    (compileRouteGen true false G (B "/a/:x ") [] 0).pattern = B "/a/:x" ∧
+    (compileRoute G (B "/a/:x ") [] 0).pattern = B "/a/:x " ∧
+    (serve anySat (build false [reg "GET" "/a/:x "]) ⟨G, B "/a/1", [B "x "]⟩).pattern = B "/a/:x " ∧
+    (serveCompiled polyHash anySat onOpts [reg "GET" "/a/:x "] false ⟨G, B "/a/1", [B "x "]⟩).lookups = [(B "x ", B "1")] :=
+  ⟨by decide, by decide, by decide, by decide⟩
 
 /-! ### non-vacuity -/
 
@@ -320,14 +281,14 @@ def exOpts : Opts := ⟨true, 7, 5, false⟩
 /-- the hypotheses of `compiled_eq_tree_partial` hold for a script with a constrained parameter route,
 static siblings, a second method, a wildcard and the root, a 7-bit bloom filter with 5 hash functions,
 and a hash that separates the keys; the compiled dynamic stage is the one that answers -/
-example : ∃ R, specRoutes exScript = some R ∧ normal R = true ∧ dSpace R = false ∧
+example : ∃ R, specRoutes exScript = some R ∧ normal R = true ∧
     (∀ g ∈ exScript, g.method ∈ stdMethods) ∧ exReq.path.head? = some '/' ∧ '/' ∉ exReq.method ∧
     dShadow1 R exReq.method (cutAny exReq.path) = false ∧ dNames1 R exReq.method (cutAny exReq.path) = false ∧
     dCfall1 exSat R exReq.method (cutAny exReq.path) = false ∧ dOrder1 exSat R exReq.method (cutAny exReq.path) = false ∧
-    dMulti1 R exReq.method (cutAny exReq.path) = false ∧ InjOn polyHash (hashKeys R exReq) ∧
+    InjOn polyHash (hashKeys R exReq) ∧
     ((rcBuild polyHash exScript).matchDynamic exSat exReq.method exReq.path).isSome = true ∧
     (serveCompiled polyHash exSat exOpts exScript false exReq).lookups = [(B "id", B "42")] :=
-  ⟨_, rfl, by decide, by decide, by decide, by decide, by decide, by decide, by decide, by decide, by decide, by decide,
+  ⟨_, rfl, by decide, by decide, by decide, by decide, by decide, by decide, by decide, by decide,
    by unfold InjOn; decide, by decide, by decide⟩
 
 end Rivaas.C11
